@@ -42,6 +42,13 @@ static uint64_t lib_calls;
 static void drive_parser(vrng *r, pobj *o, const uint8_t *buf, size_t n, int root, int depth, char *text, size_t textcap, uint8_t *wbuf, size_t wcap)
 {
     bool b; binson_parser *p = &o->p;
+    if (vrn(r, 8) == 0) {
+        /* a parser object that was only zeroed (no state array, depth 0): init is documented to refuse it */
+        binson_parser zp; memset(&zp, 0, sizeof zp);
+        LIB(b = binson_parser_init_object(&zp, buf, n)); LIB(b = binson_parser_init_array(&zp, buf, n));
+        zp.max_depth = 3; LIB(b = binson_parser_init_object(&zp, buf, n));
+        lib_calls += 3;
+    }
     p->state = o->st; p->max_depth = (uint_fast8_t)depth;
     LIB(b = root == K_OBJ ? binson_parser_init_object(p, buf, n) : binson_parser_init_array(p, buf, n));
     LIB(b = binson_parser_verify(p));
@@ -233,7 +240,16 @@ static void on_alt(void)
     sarg *a = SA; binson_parser *p = &SO.p; bbuf raw; binson_writer w;
     p->state = SO.st; p->max_depth = 255;
     binson_parser_init_object(p, a->doc->p, a->doc->n);
-    if (a->what == 0 && a->wide) {
+    if (a->what == 0 && a->wide == 2) {
+        /* the parser has exactly one level: everything below the root field is deeper than it may go */
+        p->max_depth = 1;
+        binson_parser_init_object(p, a->doc->p, a->doc->n);
+        binson_parser_verify(p);
+        binson_parser_reset(p); binson_parser_go_into_object(p); binson_parser_next(p); binson_parser_get_raw(p, &raw);
+        binson_parser_reset(p); binson_parser_go_into_object(p); binson_parser_field(p, "a"); binson_writer_init(&w, swb, sizeof swb); binson_parser_to_writer(p, &w);
+        binson_parser_reset(p); binson_parser_go_into_object(p); binson_parser_next(p); binson_parser_go_into_object(p); binson_parser_leave_object(p);
+        binson_parser_reset(p); binson_parser_go_into_object(p); binson_parser_next(p); binson_parser_next(p); binson_parser_leave_object(p);
+    } else if (a->what == 0 && a->wide) {
         binson_parser_verify(p);
         binson_parser_go_into_object(p);
         binson_parser_field(p, "f0000"); binson_parser_field(p, "absent"); binson_parser_field_ensure(p, "zz", BINSON_TYPE_ARRAY);
@@ -308,6 +324,19 @@ static void stack_mode(void)
                 if (u > hi) { hi = u; snprintf(hi_at, sizeof hi_at, "fields/elements=%d", WIDE[i]); }
                 vw_count("stack_measurements", 1);
                 vw_nontrivial(vh_hash(&WIDE[i], sizeof(int), 40 + (uint64_t)what));
+            }
+        /* and for input nested far deeper than the parser's own limit (max_depth 1): get_raw / to_writer / skip must refuse iteratively */
+        static const int DEEP[] = { 2, 60, 1000 };
+        for (int warm = 0; warm < 2 && what == 0; warm++)
+            for (int i = 0; i < 3; i++) {
+                nest_doc(&d, DEEP[i], 3, 4, false);
+                sarg a = { DEEP[i], 3, 4, what, &d, 2 };
+                size_t u = measure(&a);
+                if (!warm) continue;
+                if (u < lo) { lo = u; snprintf(lo_at, sizeof lo_at, "max_depth=1, input nesting=%d", DEEP[i]); }
+                if (u > hi) { hi = u; snprintf(hi_at, sizeof hi_at, "max_depth=1, input nesting=%d", DEEP[i]); }
+                vw_count("stack_measurements", 1);
+                vw_nontrivial(vh_hash(&DEEP[i], sizeof(int), 80 + (uint64_t)what));
             }
         size_t spread_max = what == 0 ? 64 : 1024, budget = what == 0 ? 2048 + 1024 : 48 * 1024;
         vw_max(what == 0 ? "max_stack_bytes_parse_write" : "max_stack_bytes_text", hi);
